@@ -204,7 +204,7 @@ func registerIntrinsics(p *Program) {
 	I[verifPkg+".Symbolic"] = func(ex *Exec, fr *frame, fn *ssa.Function, a []Value) Value { return True }
 	I[verifPkg+".Feasible"] = func(ex *Exec, fr *frame, fn *ssa.Function, a []Value) Value {
 		// Feasible(c): is c satisfiable under the current path condition? (no fork)
-		r, _ := ex.S.CheckSat([]*Term{tstr(a[0])}, nil)
+		r, _ := ex.Check([]*Term{tstr(a[0])}, nil)
 		if r == Unknown {
 			ex.unknowns++
 		}
